@@ -767,7 +767,7 @@ func (c *Client) Authenticate(username, password string) (User, error) {
 	c.mu.RLock()
 	au, ok := c.authCache[username]
 	c.mu.RUnlock()
-	if ok {
+	if ok && au.bhash == userInfo.Hash {
 		// verify the password using the cached salt and hash
 		if bytes.Equal(c.hashWithSalt(au.salt, password), au.hash) {
 			return userInfo, nil
